@@ -15,7 +15,7 @@ def check_no_silent_drop(chk, rule, prog, eff):
     cf_off = prog.field_offset("_cbor_decoder_context", "creation_failed")
     se_off = prog.field_offset("_cbor_decoder_context", "syntax_error")
     root_off = prog.field_offset("_cbor_decoder_context", "root")
-    g = prog.global_for(f, "cbor_load.callbacks")
+    g = __import__("tables").load_callbacks_global(prog)
     if g is None:
         raise AnalysisBroken("cbor_load.callbacks not found")
     builders = sorted({el.name for el in g["init_val"].elems if hasattr(el, "name")})
@@ -125,12 +125,22 @@ def run(ctx, chk):
         last_status = None
         excluded_status = set()
         flags = {}
+        nonempty = infeasible = False
         for (t, truth, ins) in pa.facts:
             if t == ("icmp", "eq", SIZE, ("c", 0)) and truth:
                 cause = "empty"
+            elif t == ("icmp", "eq", SIZE, ("c", 0)):
+                nonempty = True
             elif t[0] == "icmp" and len(t) == 4 and ((t[2] == SIZE and ((t[1] == "ugt" and not truth) or (t[1] == "ule" and truth))) or
                                                      (t[3] == SIZE and ((t[1] == "ult" and not truth) or (t[1] == "uge" and truth)))):
-                cause = "exhausted"       # source_size <= read, however the comparison is spelled
+                # source_size <= read, however the comparison is spelled; against a read count that is still the constant 0
+                # it says "the input is empty" (the two exits merged into one test)
+                if ("c", 0) in (t[2], t[3]):
+                    if nonempty:
+                        infeasible = True      # the input was found non-empty earlier on this path
+                    cause = "empty"
+                else:
+                    cause = "exhausted"
             elif t[0] in ("in", "notin") and t[1][0] == "ld" and t[1][2] == st_status:
                 if t[0] == "in" and len(t[2]) == 1:
                     v = t[2][0]
@@ -167,8 +177,23 @@ def run(ctx, chk):
                         cause = "syntax_error"
         if last_status not in (None, "other"):
             statuses_seen.add(last_status)
+        if infeasible:
+            continue
         if last_status == "other":
             continue  # status outside the enumeration: unreachable given C08.status; not an obligation
+        # "nothing has been read yet" asked of a count that already includes what a decoder call consumed: that call finished an
+        # item, so it consumed at least the initial byte (C08.read), and the sum cannot wrap (it stays within the buffer: C01.window)
+        dr_read = prog.field_offset("cbor_decoder_result", "read")
+
+        def _has_consumed(t, depth=0):
+            if not isinstance(t, tuple) or depth > 6:
+                return False
+            if t[0] == "ld" and t[2] == dr_read and t[1] in dres_cells:
+                return True
+            return t[0] == "op" and t[1] == "add" and any(_has_consumed(x, depth + 1) for x in t[3:5])
+        if any(t[0] == "icmp" and t[1] in ("eq", "ne") and t[3] == ("c", 0) and isinstance(t[2], tuple) and t[2][0] == "op" and
+               _has_consumed(t[2]) and truth == (t[1] == "eq") for t, truth, _ in pa.facts):
+            continue
         is_null = pa.ret == ("c", 0)
         if cause is not None:
             seen_causes.add(cause)
@@ -288,7 +313,7 @@ def run(ctx, chk):
     import typestate as _ts5
     from props.c02 import check_break
     _H5, _PA5, _IF5, _x5 = ctx.typestate()
-    _g5 = prog.global_for(prog.fn("cbor_load"), "cbor_load.callbacks")
+    _g5 = __import__("tables").load_callbacks_global(prog)
     _w5 = {n_: getattr(el_, "name", None) for n_, el_ in zip(tables.callback_fields(prog), _g5["init_val"].elems)}
     check_break(chk, "C05.break", prog, cache_, _ts5.CallSites(prog, eff, cache_, _H5, _PA5), _PA5, _w5["indef_break"])
     chk.rule("C05.attach", "what the grammar forbids is refused where it is attached: every call the builders make to an operation with an asserted "
@@ -326,4 +351,11 @@ def _truthy(st, r):
             x = x[3]
         if x == r:
             return truth
+        # ... or kept in a bool and asked `!= 0` / `== 0`
+        if isinstance(t, tuple) and t[0] == "icmp" and t[1] in ("eq", "ne") and t[3] == ("c", 0):
+            x = t[2]
+            while isinstance(x, tuple) and x[0] == "cast":
+                x = x[3]
+            if x == r:
+                return truth if t[1] == "ne" else not truth
     return False
